@@ -350,7 +350,57 @@ func Run(ctx *Ctx, p *Property, level string) int {
 		}
 		oblList = keep
 	}
+	// callee contracts the Layer-D functions of this run were checked against: verified here,
+	// verified by another property's check, external (trusted), or assumed outright
+	var callees []map[string]interface{}
+	{
+		verifiedHere := map[string]bool{}
+		for _, g := range p.Groups {
+			if g.Layer == "D" {
+				for _, f := range g.Funcs {
+					verifiedHere[f] = true
+				}
+			}
+		}
+		elsewhere := map[string][]string{}
+		tab := Table()
+		var ids []string
+		for id := range tab {
+			ids = append(ids, id)
+		}
+		sort.Strings(ids)
+		for _, id := range ids {
+			for _, g := range tab[id].Groups {
+				if g.Layer == "D" {
+					for _, f := range g.Funcs {
+						elsewhere[f] = append(elsewhere[f], id)
+					}
+				}
+			}
+		}
+		var ks []string
+		for k := range ctx.L.UsedContracts {
+			ks = append(ks, k)
+		}
+		sort.Strings(ks)
+		for _, k := range ks {
+			if verifiedHere[k] {
+				continue
+			}
+			st := "assumed: repository function, contract not verified by any check"
+			if !strings.HasPrefix(k, "derive.") {
+				st = "trusted: standard-library call without a contract, treated as an uninterpreted pure function"
+			}
+			if con := ctx.L.Contracts.Funcs[k]; con != nil && con.Extern {
+				st = "trusted: external function (standard library / dependency), contract written from its documentation"
+			} else if len(elsewhere[k]) > 0 {
+				st = "verified by the check of " + strings.Join(elsewhere[k], ", ")
+			}
+			callees = append(callees, map[string]interface{}{"function": k, "status": st})
+		}
+	}
 	ev.Coverage = map[string]interface{}{
+		"callee_contracts_used":     callees,
 		"obligations":               total,
 		"discharged":                discharged,
 		"known_finding_obligations": knownN,
